@@ -41,9 +41,16 @@ func init() {
 	})
 }
 
-var c09Palettes = [][2]float64{{1, 2}, {0, math.Copysign(0, -1)}, {0.1, math.Nextafter(0.1, 1)}, {math.NaN(), 3}}
+var c09Palettes = [][2]float64{{1, 2}, {0, math.Copysign(0, -1)}, {0.1, math.Nextafter(0.1, 1)}, {math.NaN(), 3}, {1, 7}, {1, 9}} // the last two: see c09Choices
 
 func c09Choices(p int) []SlotChoice {
+	if p == len(c09Palettes)-1 {
+		// a slot holding the point of a LATER lap of the ring (a writer whose clock is ahead of the reader's): no value
+		return []SlotChoice{{Kind: "absent"}, {Kind: "value", V: 1}, {Kind: "newer", V: 9}}
+	}
+	if p == len(c09Palettes)-2 { // ... and of an EARLIER lap
+		return []SlotChoice{{Kind: "absent"}, {Kind: "value", V: 1}, {Kind: "stale", V: 7}}
+	}
 	return []SlotChoice{{Kind: "absent"}, {Kind: "value", V: c09Palettes[p][0]}, {Kind: "value", V: c09Palettes[p][1]}}
 }
 
